@@ -383,6 +383,29 @@ var c18ScriptOpts = scriptOpts{maxNodes: 3, maxDepth: 3, maxBody: 4, random: tru
 		return nil
 	}}
 
+// untitleStart removes the title header of the script's first node (and later nodes of the same title).
+func untitleStart(sc *Script) {
+	start := sc.allNodes()[0]
+	var files [][]*Node
+	for _, file := range sc.Files {
+		var keep []*Node
+		for _, n := range file {
+			if n == start || n.Title != start.Title {
+				keep = append(keep, n)
+			}
+		}
+		if len(keep) > 0 {
+			files = append(files, keep)
+		}
+	}
+	sc.Files = files
+	sc.FileTags = nil
+	start.Title = ""
+	if len(start.Headers) == 0 {
+		start.Headers = append(start.Headers, [2]string{"colour", "red and blue"})
+	}
+}
+
 var c18Concurrently = Register(Prop[c18Case]{
 	ID: "C18", Name: "concurrent",
 	Gen: func(t *rapid.T) c18Case {
@@ -412,6 +435,11 @@ var c18Concurrently = Register(Prop[c18Case]{
 			seed := genSeedLegal(t)
 			if rapid.IntRange(0, 3).Draw(t, "emptyseed") == 0 {
 				seed = ""
+			}
+			if rapid.IntRange(0, 3).Draw(t, "untitled") == 0 {
+				// a start node without a title header: its name is the empty string in every runner, whatever else the
+				// process has loaded (jumps back to its former title now fail - alone and concurrently alike)
+				untitleStart(f.Script)
 			}
 			prog := c18Prog{flowCase: f, Seed: seed}
 			if rapid.IntRange(0, 3).Draw(t, "trailer") == 0 {
